@@ -61,6 +61,13 @@ Definition ks_ofv (kvalues : list Q) (coords : list (list Q)) : list (list Q) :=
 Definition shift_scalar (k : Q) (kvalues : list Q) : list Q :=
   match kvalues with [] => [] | kv0 :: r => (k * kv0) :: map (fun _ => 0) r end.
 Definition shift_vector (k kvalues : list Q) : list Q := map (fun p => fst p * snd p) (combine k kvalues).
+(* a per-axis kvalue may be longer than the state's wavenumber dimension: kvalue[:kdim], kdim = shape(sm.k)[-1]
+   (ks_ofv truncates the same way through [combine]) *)
+Definition kdim_of (coords : list (list Q)) : nat := length (hd [] coords).
+Definition shift_scalar_on (k : Q) (kvalues : list Q) (coords : list (list Q)) : list Q :=
+  shift_scalar k (firstn (kdim_of coords) kvalues).
+Definition shift_vector_on (k kvalues : list Q) (coords : list (list Q)) : list Q :=
+  shift_vector k (firstn (kdim_of coords) kvalues).
 (* 1-D state matrix without coords: _setup_coords(nstate, 1) = [[-n], ..., [n]] *)
 Definition coords1 (len : nat) : list (list Q) :=
   tab len (fun i => [inject_Z (Z.of_nat i - Z.of_nat ((len - 1) / 2))]).
